@@ -36,12 +36,21 @@ def obligations(tier):
                        reach="c19_reach", reach_shards=[{"ctrl": "SUBSCRIBE", "sstate": 1, "recv": "full", "others": ["L", "A"], "names": [1, 1, 1, 2]}],
                        encoded=ENC,
                        bounds="one control or data frame from a module in each protocol state (accepted, connected, subscribed, subscribed-to-all, logger or not), 2 other modules (0-2 loggers, an ALL subscriber, a bystander)",
-                       symbolic="all header fields, control payload integers (incl. the subscription type over all of int32, so repeats and no-ops), module ids, request id/flags")]
+                       symbolic="all header fields, control payload integers (incl. the subscription type over all of int32, so repeats and no-ops), module ids, request id/flags"),
+            # the client side of the handshake: the real Client._wait_for_acknowledgement picks the FIRST acknowledgement off the stream
+            Obligation("client_waits_for_the_first_acknowledgement", "harness.c08_read", "h_ack_wait",
+                       [{"nframes": nf, "state": st, "timeout": to, "tick": tk} for nf in ((2, 3) if tier == "quick" else (1, 2, 3)) for st in ("none", "sub", "all")
+                        for to, tk in (("block", 0.001), ("timed", 0.001), ("timed", 1.0))],
+                       cond_timeout=200, path_timeout=40, reach="h_ack_wait_reach", reach_shards=[{"nframes": 3, "state": "none", "timeout": "block", "tick": 0.001}],
+                       encoded=["pyrtma.client:Client._wait_for_acknowledgement", "pyrtma.client:Client.read_message", "pyrtma.client:Client._read_message"],
+                       bounds="streams of <= 3 decodable frames (ACKNOWLEDGE / MODULE_READY / CONNECT_V2 in any order), client subscribed to nothing / one type / all, blocking and timed waits (clock that does / does not use the timeout up)",
+                       symbolic="the kind of each frame")]
 
 
 MANIFEST = {
     "text": "For every control frame kind and every data type, every field value, every protocol state of the sender and 0-2 loggers, the real process_message appends exactly one ACKNOWLEDGE "
             "(src 0, dest = sender's id) to the sender's own connection and one copy per logger for accepted handshakes and the four subscription controls, and none otherwise; bystanders never get one. "
+            "On the client side the real _wait_for_acknowledgement returns the first ACKNOWLEDGE of any stream of <= 3 decodable frames, consuming exactly the frames up to it, whatever the client subscribes to. "
             "CrossHair exhausts each shard; z3 decides every branch.",
     "note": "socket recorders, ctypes shadows (validated), Inv pre-state; order argument in assumptions",
     "design_ref": "DESIGN.md 4.19",
